@@ -54,6 +54,23 @@ def table_columns(schema, table, flags):
     return cols
 
 
+def optional_value(rng, c):
+    t = c["dtype"]
+    if t == "IntCol":
+        return rng.choice([0, 1, 1, 2])
+    if t == "Int64Col":
+        return rng.choice([0, 1, 5, 1700000000])
+    if t == "FloatCol":
+        return rng.choice([0, 0.5, 1.25, 3])
+    if t in ("StringCol", "StringLargeCol"):
+        return rng.choice(["", "opt " + c["name"], "x"])
+    if t == "StringListCol":
+        return rng.choice([[], ["a"], ["b", "a"]])
+    if t == "Int64ListCol":
+        return rng.choice([[], [1], [3, 2]])
+    return copy.deepcopy(DEFAULTS[t])
+
+
 def full_backend(schema, b, flavour, flags, rng, shuffle=True):
     """expand a gen.py backend (column subsets) to complete Livestatus tables for this flavour"""
     tables = {}
@@ -68,6 +85,9 @@ def full_backend(schema, b, flavour, flags, rng, shuffle=True):
             for c in cols:
                 if c["name"] in given:
                     row[c["name"]] = given[c["name"]]
+                elif c.get("optional") and c["name"] not in ("last_update", "lmd_last_cache_update") and tname in ("hosts", "services", "contacts"):
+                    # columns only some backends have: give them values that differ from the empty default, a lost column shows
+                    row[c["name"]] = optional_value(rng, c)
                 else:
                     row[c["name"]] = copy.deepcopy(DEFAULTS[c["dtype"]])
             rows.append(row)
